@@ -7,7 +7,7 @@ C05 protocol handler.
   →
   (out <id> (m <model>) (mv <model>) (tag <branch>) (wf 0|1) (spec C05 0|1) (spec C05v 0|1) (spec OWS 0|1)
        (owseq 0|1) (class F07 0|1) (class F07b 0|1) (classv F07 0|1) (classv F07b 0|1) (best <hex>|none))
-    model  (r406) | (e406) | (w <hex>…)   the possible writers
+    model  (r406) | (e406) | (w <hex>…)   the writer (one; a list for a registry with repeated keys only)
     class F07b = class of the open finding; class F07 = class of the finding repaired by d89a7d4, kept
     as a coverage class (a failing case inside it is a violation like any other)
 -/
